@@ -635,11 +635,11 @@ KNOWN_CLASSES = {
 }
 
 SUBCHECKS = [
-    SubCheck("builtin", check_builtin, strategy=_pairs, enumerate=enumerate_pairs,
+    SubCheck("builtin", check_builtin, strategy=_pairs, enumerate=enumerate_pairs, exhaustive_tiers=("thorough",),
              budget={"quick": 4000, "thorough": 150000}, timeout={"quick": 10, "thorough": 20},
              exhaustive="all ordered pairs of terms of the WIDE, DEEP and LISTS universes (see RULE); quick: 1-in-%d "
                         "sample" % QUICK_STRIDE, render=render_case),
-    SubCheck("head", check_head, strategy=_pairs, enumerate=enumerate_pairs,
+    SubCheck("head", check_head, strategy=_pairs, enumerate=enumerate_pairs, exhaustive_tiers=("thorough",),
              budget={"quick": 4000, "thorough": 150000}, timeout={"quick": 10, "thorough": 20},
              exhaustive="all ordered pairs of terms of the WIDE, DEEP and LISTS universes (see RULE); quick: 1-in-%d "
                         "sample" % QUICK_STRIDE, render=render_case),
